@@ -13,7 +13,7 @@
    are pairwise distinct. *)
 From Coq Require Import List ZArith NArith Bool Permutation.
 Import ListNotations.
-From SygmaV Require Import Model.C16 Proofs.C16 Proofs.C16_Exec Proofs.C16_Seq.
+From SygmaV Require Import Model.C16 Proofs.C16 Proofs.C16_Exec Proofs.C16_Seq Proofs.C16_Dup.
 Local Open Scope Z_scope.
 
 (* One output per proposal, in order, paying exactly its amount to (the script of) its recipient. *)
@@ -284,4 +284,97 @@ Example C16_nonvacuous_seq :
   seq_spec w_bridge (model_build_obs w_bridge [b1; b2]) = true /\
   seq_spec w_bridge [(ex_props, us1, [None; None]); (ex_props, us2, [stale; good])] = false /\
   seq_spec w_bridge [(ex_props, us2, [stale; stale])] = false.
+Proof. vm_compute. repeat split. Qed.
+
+(* ---- round 5: duplicate and overlapping proposals ----
+   A delivery may list the same deposit (source domain, deposit nonce) several times, and deliveries
+   may overlap.  proposalsForExecution, for every recorded state [st] and every delivery: the selected
+   proposals are pairwise distinct deposits, none recorded before, each the first proposal of its
+   deposit in the delivery, and every delivered deposit not recorded before is selected. *)
+Theorem C16_select_once : forall st ps,
+  NoDup (map key_of (select_props st ps)) /\
+  (forall p, In p (select_props st ps) ->
+     In p ps /\ ~ In (key_of p) st /\ lookup_key ps (key_of p) = Some p) /\
+  (forall p, In p ps -> In (key_of p) st \/ In (key_of p) (map key_of (select_props st ps))).
+Proof. exact select_once. Qed.
+Print Assumptions C16_select_once.
+
+(* deliveries handled one after the other on one Executor select together exactly what ONE delivery
+   of all their proposals selects (so no deposit is selected twice over the history), and the
+   per-resource groups of every selection are a partition of it *)
+Theorem C16_serial_is_select : forall dels st, concat (serial st dels) = select_props st (concat dels).
+Proof. exact serial_concat. Qed.
+Print Assumptions C16_serial_is_select.
+
+Theorem C16_dgroups_partition : forall sel,
+  Permutation (flat_map snd (dgroups sel)) sel /\
+  NoDup (map fst (dgroups sel)) /\
+  (forall g, In g (dgroups sel) -> forall p, In p (snd g) -> In p sel /\ d_rid p = fst g).
+Proof.
+  exact (fun sel => conj (dgroups_members sel)
+                         (conj (eq_ind_r (fun l => NoDup l) (rids_nodup sel) (dgroups_fst sel)) (dgroups_rid sel))).
+Qed.
+Print Assumptions C16_dgroups_partition.
+
+(* the judge of observed runs - per transaction: the resource it is built for, the deposits its
+   metadata lists, and the transaction where the build is let through - accepts the model on every
+   history of deliveries (duplicates, overlaps, any resources), ... *)
+Theorem C16_dup_ok_model : forall dels keys us rate cid wt,
+  (wt = true -> groups_wf (serial_groups [] dels) us rate = true) ->
+  dup_ok true (concat dels) keys us (map (model_dtx keys us rate cid wt) (serial_groups [] dels)) = true.
+Proof. exact dup_ok_model. Qed.
+Print Assumptions C16_dup_ok_model.
+
+(* ... the judge applied to CONCURRENT deliveries (per transaction only) is implied by it, ... *)
+Theorem C16_dup_ok_weaken : forall ps keys us obs,
+  dup_ok true ps keys us obs = true -> dup_ok false ps keys us obs = true.
+Proof. exact dup_ok_weaken. Qed.
+Print Assumptions C16_dup_ok_weaken.
+
+(* ... and whatever it accepts: (one delivery) no deposit is listed twice over all its transactions;
+   every delivered deposit is paid; every transaction lists no deposit twice, lists only delivered
+   proposals of its own resource, and - where observed - obeys the per-transaction specification
+   (C16_tx_ok_sound / C16_tx_ok_covers) for exactly the proposals it lists: one output per listed
+   proposal, the metadata output, at most one change output, conservation *)
+Theorem C16_dup_ok_sound : forall strict ps keys us obs,
+  obs <> [] -> dup_ok strict ps keys us obs = true ->
+  (strict = true -> NoDup (all_metas obs)) /\
+  (forall p, In p ps -> In (key_of p) (all_metas obs)) /\
+  (forall r ms otx, In (r, ms, otx) obs ->
+     NoDup ms /\
+     exists gps, map key_of gps = ms /\
+       (forall p, In p gps -> In p ps /\ d_rid p = r) /\
+       (forall t, otx = Some t -> spec_one (map d_pay gps) us (bridge_of keys r) t = true)).
+Proof. exact dup_ok_sound. Qed.
+Print Assumptions C16_dup_ok_sound.
+
+(* copies of one deposit agree in everything ([consistent], satisfied by the generator): the proposal
+   the judge takes for a deposit is the proposal itself, whichever copy *)
+Theorem C16_consistent_lookup : forall ps p,
+  consistent ps = true -> In p ps -> lookup_key ps (key_of p) = Some p.
+Proof. exact consistent_lookup. Qed.
+Print Assumptions C16_consistent_lookup.
+
+(* Non-vacuity of the round-5 theorems: a delivery P Q P P' P (P' = P's nonce from another source,
+   same recipient and amount) selects P Q P'; two transactions (resource 1: P and P', two equal
+   outputs; resource 2: Q); the judge rejects P listed twice, P' not paid, and a transaction with
+   one output for the two equal proposals. *)
+Example C16_nonvacuous_dup :
+  let us := [mkUtxo w_id 0 400000 1700000000] in
+  let keys := [repeat 7%N 32; repeat 8%N 32] in
+  let pay := (1000, script_of P2WPKH (repeat 1%N 20)) in
+  let meta := (0, [106; 6; 115; 121; 103; 95; 81; 109]%N) in
+  let tx (outs : list txout) q : option run_res := Some (Some ([(w_id, 0)], outs ++ [meta; (400000 - q - sumZ (map fst outs), bridge_of keys 1)], q)) in
+  let t2 := tx [pay; pay] 1410 in
+  let t1 := tx [pay] 1240 in
+  consistent w_dup_delivery = true /\
+  select_props [] w_dup_delivery = [w_P; w_Q; w_P_src] /\
+  map (fun g => (fst g, map key_of (snd g))) (serial_groups [] [w_dup_delivery]) = [(1, [(1, 11); (3, 11)]); (2, [(1, 12)])]%N /\
+  groups_wf (serial_groups [] [w_dup_delivery]) us 3 = true /\
+  dup_ok true w_dup_delivery keys us [(1, [(1, 11); (3, 11)], t2); (2, [(1, 12)], None)]%N = true /\
+  dup_ok true w_dup_delivery keys us [(1, [(1, 11); (1, 11); (3, 11)], None); (2, [(1, 12)], None)]%N = false /\
+  dup_ok true w_dup_delivery keys us [(1, [(1, 11)], None); (2, [(1, 12)], None)]%N = false /\
+  dup_ok true w_dup_delivery keys us [(1, [(1, 11); (3, 11)], t1); (2, [(1, 12)], None)]%N = false /\
+  dup_ok true w_dup_delivery keys us [(1, [(1, 11); (3, 11)], None); (1, [(1, 11)], None); (2, [(1, 12)], None)]%N = false /\
+  dup_ok false w_dup_delivery keys us [(1, [(1, 11); (3, 11)], None); (1, [(1, 11)], None); (2, [(1, 12)], None)]%N = true.
 Proof. vm_compute. repeat split. Qed.
